@@ -12,7 +12,7 @@ from vmon.ref import torus as T
 
 ID = 'C06'
 RULE = ('named crystal pool (Bravais/multi-site, 2-D/3-D, one or several Wyckoff sets, with/without origin states, compounds with spectator species) x Nthermo in '
-        '{1,2} x random vacancy prefactors [0.5,2] and energies N(0,sigma) per Wyckoff set and omega0 class, kT in [0.5,2]; '
+        '{1,2} x random vacancy prefactors [0.5,2] and energies N(0,sigma) per Wyckoff set and omega0 class (spread limited to 12 kT), kT in [0.5,2]; '
         'non-trivial = rates not all equal or more than one site; distinct = (crystal, Nthermo, input index)')
 ASSUMPTIONS = ['real Green function: tolerance 1e-5 x |L0vv| (the property qualifies these identities by integration accuracy; '
                'observed <= 4e-7); a larger error is accepted only if it shrinks on denser k-meshes (NGFmax 8: not larger, 12: at most half) - '
@@ -38,7 +38,11 @@ def tracer_args(rng, diff, sigma):
     nW, n0 = len(diff.sitelist), len(diff.om0_jn)
     kT = float(rng.uniform(0.5, 2.))
     preV, eneV = rng.uniform(0.5, 2, size=nW), rng.normal(size=nW) * sigma
-    preT0, eneT0 = rng.uniform(0.5, 2, size=n0), rng.normal(size=n0) * sigma + eneV.max() + 1.
+    if np.ptp(eneV) > 12 * kT: eneV = eneV * (12 * kT / np.ptp(eneV))   # site-probability contrast at most e^12 (beyond that double precision decides, not the code)
+    preT0 = rng.uniform(0.5, 2, size=n0)
+    eT = rng.normal(size=n0) * sigma
+    if np.ptp(eT) > 12 * kT: eT = eT * (12 * kT / np.ptp(eT))
+    eneT0 = eT + eneV.max() + 1.
     d = {'preV': preV, 'eneV': eneV, 'preT0': preT0, 'eneT0': eneT0}
     d.update(diff.maketracerpreene(**d))
     return kT, d, list(diff.preene2betafree(kT, **d))
@@ -69,9 +73,12 @@ def run_case(case):
             diff.GFcalc = real
             diff.clearcache()
             Lfresh = [np.array(x) for x in diff.Lij(*args)]
-            diff.GFcalc = T.GFstub(real, tor, exact_eta=True)
-            diff.clearcache()
-            Ls = [np.array(x) for x in diff.Lij(*args)]
+            if len(diff.OSindices) >= 2 and len(diff.sitelist) >= 2:
+                Ls = Lfresh   # torus stand-in not usable (see C01): its clauses are skipped below
+            else:
+                diff.GFcalc = T.GFstub(real, tor, exact_eta=True)
+                diff.clearcache()
+                Ls = [np.array(x) for x in diff.Lij(*args)]
         except Exception as e:
             import traceback
             mon.fail('C06:Lij:raises:' + type(e).__name__, traceback.format_exc()[-800:] + str(desc), tags)
